@@ -35,7 +35,7 @@ SYM_TOKEN = ["a", "b", "ab", "x_1", "é", "7"]     # regex-safe tokens (C06)
 
 def state_value(vc, i, perm=None):
     """perm: for vc == 'inject', tuple of hash values indexed by state id"""
-    if vc == "int":
+    if vc in ("int", "binary"):
         return i
     if vc == "str":
         return STRS[i % len(STRS)] if i < len(STRS) else "q%d" % i
@@ -54,6 +54,8 @@ def state_value(vc, i, perm=None):
 def symbol_value(vc, j, token=False):
     if token:
         return SYM_TOKEN[j % len(SYM_TOKEN)]
+    if vc == "binary":
+        return [0, 1, 2, ""][j % 4]          # falsy symbol values: 0 and the empty string
     if vc == "mixed":
         return [1, "1", 2][j % 3]
     if vc == "tuple":
@@ -61,4 +63,4 @@ def symbol_value(vc, j, token=False):
     return SYM_STR[j % len(SYM_STR)]
 
 
-FA_VALUE_CLASSES = ["int", "str", "merged", "mixed", "tuple", "inject"]
+FA_VALUE_CLASSES = ["int", "str", "merged", "mixed", "tuple", "inject", "binary"]
